@@ -18,7 +18,7 @@ CONSTANTS
   Vols,        \* volumes offered to create
   Traders,     \* trader ids offered to create
   ModPrices,   \* new prices offered to modify (None = keep)
-  ModVols,     \* subset of {"none","smaller","equal","larger"}
+  ModVols,     \* subset of {"none","smaller","equal","larger","min","max"}
   MaxOrders,   \* bound on created orders
   MaxOps,      \* bound on number of calls (depth)
   VolCap,      \* 0, or a bound on every order volume, on the resting volume per side and on the total traded volume (large-volume regime)
@@ -39,6 +39,8 @@ ModVolOf(o, mv) ==
     [] mv = "smaller" -> o.vol - 1
     [] mv = "equal"   -> o.vol
     [] mv = "larger"  -> o.vol + 1
+    [] mv = "min"     -> 1                                          \* down to one unit, whatever the volume is
+    [] mv = "max"     -> IF VolCap > 0 THEN VolCap ELSE o.vol + 2   \* up to the largest volume of the configuration
 
 \* One call: the successor is the label's meaning (BookProps!ApplyLbl).
 Step(lbl) ==
